@@ -47,7 +47,7 @@ class _ContainerValidate(Contract):
 
         def isinstance_apply(I2, a, kw, st, k):
             t = a[1]
-            nm = t.name if isinstance(t, VFunc) and t.kind == "class" else None
+            nm = t.name if isinstance(t, VFunc) and t.kind in ("class", "opaque") else None
             if nm is None:
                 raise Unsupported("isinstance against %r" % (t,))
             return k(VBool(is_inst(as_val(I2.cx, a[0], st), z3.StringVal(nm))), st)
